@@ -19,6 +19,51 @@ fn any_input<const N: usize>() -> ([u8; N], usize) {
     (a, n)
 }
 
+/// A protocol result turned into plain data: the Ok value, or the error variant as a code (+ its u8 payload).
+/// The original `Result` is consumed WITHOUT running the drop glue of ThriftProtocolError (its IO variant holds a
+/// std::io::Error = Box<dyn Error>, whose drop glue alone made every harness of this file time out: forget rule).
+struct R<T> {
+    v: Option<T>,
+    code: u8,
+    pay: u8,
+}
+const EOF: u8 = 1;
+const INVALID_FIELD_TYPE: u8 = 3;
+const INVALID_ELEMENT_TYPE: u8 = 4;
+const FIELD_DELTA_OVERFLOW: u8 = 5;
+const INVALID_BOOLEAN: u8 = 6;
+const INTEGER_OVERFLOW: u8 = 7;
+const SKIP_UNSUPPORTED: u8 = 10;
+impl<T> R<T> {
+    fn is_ok(&self) -> bool {
+        self.v.is_some()
+    }
+    fn is_err(&self) -> bool {
+        self.v.is_none()
+    }
+}
+fn take<T>(r: ThriftProtocolResult<T>) -> R<T> {
+    match r {
+        Ok(v) => R { v: Some(v), code: 0, pay: 0 },
+        Err(e) => {
+            let (code, pay) = match &e {
+                ThriftProtocolError::Eof => (EOF, 0),
+                ThriftProtocolError::IO(_) => (2, 0),
+                ThriftProtocolError::InvalidFieldType(x) => (INVALID_FIELD_TYPE, *x),
+                ThriftProtocolError::InvalidElementType(x) => (INVALID_ELEMENT_TYPE, *x),
+                ThriftProtocolError::FieldDeltaOverflow { .. } => (FIELD_DELTA_OVERFLOW, 0),
+                ThriftProtocolError::InvalidBoolean(x) => (INVALID_BOOLEAN, *x),
+                ThriftProtocolError::IntegerOverflow => (INTEGER_OVERFLOW, 0),
+                ThriftProtocolError::Utf8Error => (8, 0),
+                ThriftProtocolError::SkipDepth(_) => (9, 0),
+                ThriftProtocolError::SkipUnsupportedType(_) => (SKIP_UNSUPPORTED, 0),
+            };
+            std::mem::forget(e);
+            R { v: None, code, pay }
+        }
+    }
+}
+
 /// bytes consumed so far; asserts that the remaining slice is a suffix of input[..n]
 fn consumed(p: &ThriftSliceInputProtocol<'_>, input: &[u8], n: usize) -> usize {
     let rest = p.as_slice();
@@ -57,7 +102,8 @@ fn unzigzag(u: u64) -> i64 {
 // (low nibble, high nibble); read_bool: 1 -> true, 0 or 2 -> false, anything else Err(InvalidBoolean)
 // (one byte consumed whenever there was one); skip_empty_struct: Ok iff the byte is 0.
 // Stub: alloc::fmt::format.
-// @unit name=thrift_read_byte_family props=C08 kind=bounded bound=input<=12_bytes fns=ThriftSliceInputProtocol::read_byte,ThriftCompactInputProtocol::read_i8,ThriftCompactInputProtocol::read_field_header,ThriftCompactInputProtocol::read_bool,ThriftCompactInputProtocol::skip_empty_struct,ThriftSliceInputProtocol::as_slice
+// NOT CONFIRMED: did not finish within 900 s under a machine load of 50-80 (see REPORT: skip_empty_struct / read_string / skip recursion are the likely cost drivers)
+// @unit name=thrift_read_byte_family props=C08 kind=bounded bound=input<=12_bytes fns=ThriftSliceInputProtocol::read_byte,ThriftCompactInputProtocol::read_i8,ThriftCompactInputProtocol::read_field_header,ThriftCompactInputProtocol::read_bool,ThriftCompactInputProtocol::skip_empty_struct,ThriftSliceInputProtocol::as_slice tier=thorough timeout=900
 #[kani::proof]
 #[kani::stub(alloc::fmt::format, stub_format)]
 fn thrift_read_byte_family() {
@@ -66,35 +112,39 @@ fn thrift_read_byte_family() {
     let which: u8 = kani::any();
     match which {
         0 => {
-            let r = p.read_byte();
+            let r = take(p.read_byte());
             assert!(r.is_ok() == (n >= 1));
-            if let Ok(b) = r {
+            if let Some(b) = r.v {
                 assert!(b == a[0]);
             } else {
-                assert!(matches!(r, Err(ThriftProtocolError::Eof)));
+                assert!(r.code == EOF);
             }
         }
         1 => {
-            let r = p.read_i8();
+            let r = take(p.read_i8());
             assert!(r.is_ok() == (n >= 1));
-            if let Ok(b) = r {
+            if let Some(b) = r.v {
                 assert!(b == a[0] as i8);
             }
         }
         2 => {
-            let r = p.read_field_header();
+            let r = take(p.read_field_header());
             assert!(r.is_ok() == (n >= 1));
-            if let Ok((t, d)) = r {
+            if let Some((t, d)) = r.v {
                 assert!(t == a[0] % 16 && d == a[0] / 16);
             }
         }
         3 => {
-            let r = p.read_bool();
-            match r {
-                Ok(v) => assert!(n >= 1 && (if v { a[0] == 1 } else { a[0] == 0 || a[0] == 2 })),
-                Err(ThriftProtocolError::Eof) => assert!(n == 0),
-                Err(ThriftProtocolError::InvalidBoolean(b)) => assert!(n >= 1 && b == a[0] && a[0] > 2),
-                Err(_) => assert!(false),
+            let r = take(p.read_bool());
+            match r.v {
+                Some(v) => assert!(n >= 1 && (if v { a[0] == 1 } else { a[0] == 0 || a[0] == 2 })),
+                None => {
+                    if r.code == EOF {
+                        assert!(n == 0);
+                    } else {
+                        assert!(r.code == INVALID_BOOLEAN && n >= 1 && r.pay == a[0] && a[0] > 2);
+                    }
+                }
             }
         }
         _ => {
@@ -124,49 +174,49 @@ fn read_vlq_family<const N: usize>() {
     let ok;
     match which {
         0 => {
-            let r = p.read_vlq();
+            let r = take(p.read_vlq());
             ok = r.is_ok();
-            if let Ok(v) = r {
+            if let Some(v) = r.v {
                 assert!(model.is_some());
                 assert!(model.unwrap().1 > 10 || v == model.unwrap().0);
             } else {
-                assert!(matches!(r, Err(ThriftProtocolError::Eof)));
+                assert!(r.code == EOF);
             }
         }
         1 => {
-            let r = p.read_zig_zag();
+            let r = take(p.read_zig_zag());
             ok = r.is_ok();
-            if let Ok(v) = r {
+            if let Some(v) = r.v {
                 assert!(model.is_some());
                 assert!(model.unwrap().1 > 10 || v == unzigzag(model.unwrap().0));
             }
         }
         2 => {
-            let r = p.read_i64();
+            let r = take(p.read_i64());
             ok = r.is_ok();
-            if let Ok(v) = r {
+            if let Some(v) = r.v {
                 assert!(model.is_some());
                 assert!(model.unwrap().1 > 10 || v == unzigzag(model.unwrap().0));
             }
         }
         3 => {
-            let r = p.read_i32();
+            let r = take(p.read_i32());
             ok = r.is_ok();
-            if let Ok(v) = r {
+            if let Some(v) = r.v {
                 assert!(model.is_some());
                 assert!(model.unwrap().1 > 10 || v == unzigzag(model.unwrap().0) as i32);
             }
         }
         4 => {
-            let r = p.read_i16();
+            let r = take(p.read_i16());
             ok = r.is_ok();
-            if let Ok(v) = r {
+            if let Some(v) = r.v {
                 assert!(model.is_some());
                 assert!(model.unwrap().1 > 10 || v == unzigzag(model.unwrap().0) as i16);
             }
         }
         _ => {
-            let r = p.skip_vlq();
+            let r = take(p.skip_vlq());
             ok = r.is_ok();
         }
     }
@@ -184,12 +234,13 @@ fn read_vlq_family<const N: usize>() {
     kani::cover!(which == 5 && ok && c == 2);
     kani::cover!(n == 0);
 }
-// @unit name=thrift_read_vlq_family_12 props=C08 kind=bounded bound=input<=12_bytes fns=ThriftCompactInputProtocol::read_vlq,ThriftCompactInputProtocol::read_zig_zag,ThriftCompactInputProtocol::read_i16,ThriftCompactInputProtocol::read_i32,ThriftCompactInputProtocol::read_i64,ThriftCompactInputProtocol::skip_vlq timeout=480 mem=3
+// @unit name=thrift_read_vlq_family_12 props=C08 kind=bounded bound=input<=12_bytes fns=ThriftCompactInputProtocol::read_vlq,ThriftCompactInputProtocol::read_zig_zag,ThriftCompactInputProtocol::read_i16,ThriftCompactInputProtocol::read_i32,ThriftCompactInputProtocol::read_i64,ThriftCompactInputProtocol::skip_vlq timeout=900 mem=3 tier=thorough
 #[kani::proof]
 #[kani::unwind(14)]
 fn thrift_read_vlq_family_12() {
     read_vlq_family::<12>()
 }
+// NOT CONFIRMED: did not finish within 900 s under a machine load of 50-80 (see REPORT: skip_empty_struct / read_string / skip recursion are the likely cost drivers)
 // @unit name=thrift_read_vlq_family_24 props=C08 kind=bounded bound=input<=24_bytes fns=ThriftCompactInputProtocol::read_vlq,ThriftCompactInputProtocol::read_zig_zag,ThriftCompactInputProtocol::read_i16,ThriftCompactInputProtocol::read_i32,ThriftCompactInputProtocol::read_i64,ThriftCompactInputProtocol::skip_vlq tier=thorough timeout=900 mem=4
 #[kani::proof]
 #[kani::unwind(26)]
@@ -211,20 +262,20 @@ fn read_bytes_family<const N: usize>() {
         0 | 1 | 2 => {
             let model = spec_vlq(&a, 0, n);
             let (got_ok, got_ptr, got_len) = match which {
-                0 => match p.read_bytes() {
-                    Ok(s) => (true, s.as_ptr(), s.len()),
-                    Err(e) => {
-                        assert!(matches!(e, ThriftProtocolError::Eof));
-                        (false, a.as_ptr(), 0)
+                0 => {
+                    let r = take(p.read_bytes());
+                    match r.v {
+                        Some(s) => (true, s.as_ptr(), s.len()),
+                        None => {
+                            assert!(r.code == EOF);
+                            (false, a.as_ptr(), 0)
+                        }
                     }
-                },
-                1 => match p.skip_binary() {
-                    Ok(()) => (true, a.as_ptr(), 0),
-                    Err(_) => (false, a.as_ptr(), 0),
-                },
-                _ => match p.read_string() {
-                    Ok(s) => (true, s.as_ptr(), s.len()),
-                    Err(_) => (false, a.as_ptr(), 0),
+                }
+                1 => (take(p.skip_binary()).is_ok(), a.as_ptr(), 0),
+                _ => match take(p.read_string()).v {
+                    Some(s) => (true, s.as_ptr(), s.len()),
+                    None => (false, a.as_ptr(), 0),
                 },
             };
             let c = consumed(&p, &a, n);
@@ -263,16 +314,16 @@ fn read_bytes_family<const N: usize>() {
         }
         3 => {
             let k: usize = kani::any();
-            let r = p.skip_bytes(k);
+            let r = take(p.skip_bytes(k));
             assert!(r.is_ok() == (k <= n));
             assert!(consumed(&p, &a, n) == if k <= n { k } else { 0 });
             kani::cover!(r.is_ok() && k == n);
             kani::cover!(r.is_err() && k == usize::MAX);
         }
         _ => {
-            let r = p.read_double();
+            let r = take(p.read_double());
             assert!(r.is_ok() == (n >= 8));
-            if let Ok(d) = r {
+            if let Some(d) = r.v {
                 let bits = d.to_bits();
                 let j: usize = kani::any();
                 kani::assume(j < 64);
@@ -284,12 +335,14 @@ fn read_bytes_family<const N: usize>() {
         }
     }
 }
-// @unit name=thrift_read_bytes_family_12 props=C08 kind=bounded bound=input<=12_bytes fns=ThriftSliceInputProtocol::read_bytes,ThriftCompactInputProtocol::skip_binary,ThriftCompactInputProtocol::read_string,ThriftSliceInputProtocol::skip_bytes,ThriftSliceInputProtocol::read_double timeout=480 mem=3
+// NOT CONFIRMED: did not finish within 900 s under a machine load of 50-80 (see REPORT: skip_empty_struct / read_string / skip recursion are the likely cost drivers)
+// @unit name=thrift_read_bytes_family_12 props=C08 kind=bounded bound=input<=12_bytes fns=ThriftSliceInputProtocol::read_bytes,ThriftCompactInputProtocol::skip_binary,ThriftCompactInputProtocol::read_string,ThriftSliceInputProtocol::skip_bytes,ThriftSliceInputProtocol::read_double timeout=900 mem=3 tier=thorough
 #[kani::proof]
 #[kani::unwind(14)]
 fn thrift_read_bytes_family_12() {
     read_bytes_family::<12>()
 }
+// NOT CONFIRMED: did not finish within 900 s under a machine load of 50-80 (see REPORT: skip_empty_struct / read_string / skip recursion are the likely cost drivers)
 // @unit name=thrift_read_bytes_family_24 props=C08 kind=bounded bound=input<=24_bytes fns=ThriftSliceInputProtocol::read_bytes,ThriftCompactInputProtocol::skip_binary,ThriftCompactInputProtocol::read_string,ThriftSliceInputProtocol::skip_bytes,ThriftSliceInputProtocol::read_double tier=thorough timeout=900 mem=4
 #[kani::proof]
 #[kani::unwind(26)]
@@ -327,36 +380,37 @@ fn spec_element_type(nib: u8) -> Option<ElementType> {
 fn thrift_read_list_begin() {
     let (a, n) = any_input::<12>();
     let mut p = ThriftSliceInputProtocol::new(&a[..n]);
-    let r = p.read_list_begin();
+    let r = take(p.read_list_begin());
     let c = consumed(&p, &a, n);
     if n == 0 {
-        assert!(matches!(r, Err(ThriftProtocolError::Eof)) && c == 0);
+        assert!(r.code == EOF && c == 0);
     } else if a[0] == 0 {
-        assert!(c == 1);
-        let l = r.unwrap();
+        assert!(c == 1 && r.is_ok());
+        let l = r.v.as_ref().unwrap();
         assert!(l.element_type == ElementType::Byte && l.size == 0);
     } else {
         let et = spec_element_type(a[0] & 0x0f);
         let s = a[0] >> 4;
         if et.is_none() {
-            assert!(matches!(r, Err(ThriftProtocolError::InvalidElementType(x)) if x == a[0] & 0x0f) && c == 1);
+            assert!(r.code == INVALID_ELEMENT_TYPE && r.pay == a[0] & 0x0f && c == 1);
         } else if s < 15 {
-            assert!(c == 1);
-            let l = r.unwrap();
+            assert!(c == 1 && r.is_ok());
+            let l = r.v.as_ref().unwrap();
             assert!(l.element_type == et.unwrap() && l.size == s as i32);
         } else {
             match spec_vlq(&a, 1, n) {
-                None => assert!(matches!(r, Err(ThriftProtocolError::Eof)) && c == n),
+                None => assert!(r.code == EOF && c == n),
                 Some((v, used)) => {
                     assert!(c == 1 + used);
                     if used <= 10 {
                         if v <= i32::MAX as u64 {
-                            let l = r.unwrap();
+                            assert!(r.is_ok());
+                            let l = r.v.as_ref().unwrap();
                             assert!(l.element_type == et.unwrap() && l.size as u64 == v && l.size >= 0);
                         } else {
-                            assert!(matches!(r, Err(ThriftProtocolError::IntegerOverflow)));
+                            assert!(r.code == INTEGER_OVERFLOW);
                         }
-                    } else if let Ok(l) = r {
+                    } else if let Some(l) = &r.v {
                         assert!(l.size >= 0);
                     }
                 }
@@ -402,17 +456,18 @@ fn thrift_read_field_begin() {
     let (a, n) = any_input::<12>();
     let last: i16 = kani::any();
     let mut p = ThriftSliceInputProtocol::new(&a[..n]);
-    let r = p.read_field_begin(last);
+    let r = take(p.read_field_begin(last));
     let c = consumed(&p, &a, n);
     if n == 0 {
-        assert!(matches!(r, Err(ThriftProtocolError::Eof)) && c == 0);
+        assert!(r.code == EOF && c == 0);
     } else {
         let ft = spec_field_type(a[0] & 0x0f);
         let d = a[0] >> 4;
         match ft {
-            None => assert!(matches!(r, Err(ThriftProtocolError::InvalidFieldType(x)) if x == a[0] & 0x0f) && c == 1),
+            None => assert!(r.code == INVALID_FIELD_TYPE && r.pay == a[0] & 0x0f && c == 1),
             Some(FieldType::Stop) => {
-                let f = r.unwrap();
+                assert!(r.is_ok());
+                let f = r.v.as_ref().unwrap();
                 assert!(f.field_type == FieldType::Stop && f.id == 0 && c == 1);
             }
             Some(t) => {
@@ -420,22 +475,23 @@ fn thrift_read_field_begin() {
                     assert!(c == 1);
                     let sum = last as i32 + d as i32;
                     if sum <= i16::MAX as i32 {
-                        let f = r.unwrap();
+                        assert!(r.is_ok());
+                        let f = r.v.as_ref().unwrap();
                         assert!(f.field_type == t && f.id as i32 == sum);
-                        let bv = f.bool_val();
+                        let bv = take(f.bool_val());
                         assert!(bv.is_ok() == (t == FieldType::BooleanTrue || t == FieldType::BooleanFalse));
-                        if let Ok(x) = bv {
+                        if let Some(x) = bv.v {
                             assert!(x == (t == FieldType::BooleanTrue));
                         }
                     } else {
-                        assert!(matches!(r, Err(ThriftProtocolError::FieldDeltaOverflow { .. })));
+                        assert!(r.code == FIELD_DELTA_OVERFLOW);
                     }
                 } else {
                     match spec_vlq(&a, 1, n) {
-                        None => assert!(matches!(r, Err(ThriftProtocolError::Eof)) && c == n),
+                        None => assert!(r.code == EOF && c == n),
                         Some((v, used)) => {
-                            assert!(c == 1 + used);
-                            let f = r.unwrap();
+                            assert!(c == 1 + used && r.is_ok());
+                            let f = r.v.as_ref().unwrap();
                             assert!(f.field_type == t);
                             assert!(used > 10 || f.id == unzigzag(v) as i16);
                         }
@@ -455,7 +511,8 @@ fn thrift_read_field_begin() {
 // nothing; Byte one byte; I16/I32/I64 one varint; Double 8 bytes; Uuid 16 bytes; Binary a length-prefixed
 // string; Stop is Err(SkipUnsupportedType). Ok iff the input holds that many bytes, else Err(Eof); never
 // panics; consumed <= n. (Containers: thrift_skip_containers.)
-// @unit name=thrift_skip_scalar props=C08 kind=bounded bound=input<=20_bytes fns=ThriftCompactInputProtocol::skip,ThriftCompactInputProtocol::skip_till_depth timeout=480 mem=3
+// NOT CONFIRMED: did not finish within 900 s under a machine load of 50-80 (see REPORT: skip_empty_struct / read_string / skip recursion are the likely cost drivers)
+// @unit name=thrift_skip_scalar props=C08 kind=bounded bound=input<=20_bytes fns=ThriftCompactInputProtocol::skip,ThriftCompactInputProtocol::skip_till_depth timeout=900 mem=3 tier=thorough
 #[kani::proof]
 #[kani::unwind(22)]
 fn thrift_skip_scalar() {
@@ -464,10 +521,10 @@ fn thrift_skip_scalar() {
     let nib: u8 = kani::any();
     kani::assume(nib <= 8 || nib == 13);
     let ft = spec_field_type(nib).unwrap();
-    let r = p.skip(ft);
+    let r = take(p.skip(ft));
     let c = consumed(&p, &a, n);
     match nib {
-        0 => assert!(matches!(r, Err(ThriftProtocolError::SkipUnsupportedType(FieldType::Stop))) && c == 0),
+        0 => assert!(r.code == SKIP_UNSUPPORTED && c == 0),
         1 | 2 => assert!(r.is_ok() && c == 0),
         3 => assert!(r.is_ok() == (n >= 1) && c == if n >= 1 { 1 } else { 0 }),
         4 | 5 | 6 => match spec_vlq(&a, 0, n) {
@@ -499,6 +556,7 @@ fn thrift_skip_scalar() {
 // level consumes at least one byte). Bound: input <= 5 bytes and — to keep the element loops within the
 // unwinding bound — no input byte with high nibble 0xF (excludes long-form list headers: list sizes <= 14)
 // and map sizes <= 14 by the same restriction on the size varint... see bound=.
+// NOT CONFIRMED: did not finish within 900 s under a machine load of 50-80 (see REPORT: skip_empty_struct / read_string / skip recursion are the likely cost drivers)
 // @unit name=thrift_skip_containers props=C08 kind=bounded bound=input<=5_bytes_every_byte<0x0f fns=ThriftCompactInputProtocol::skip,ThriftCompactInputProtocol::skip_till_depth tier=thorough timeout=900 mem=6
 #[kani::proof]
 #[kani::unwind(17)]
@@ -514,7 +572,7 @@ fn thrift_skip_containers() {
     let nib: u8 = kani::any();
     kani::assume(nib >= 9 && nib <= 12);
     let ft = spec_field_type(nib).unwrap();
-    let r = p.skip(ft);
+    let r = take(p.skip(ft));
     let c = consumed(&p, &a, n);
     assert!(c <= n);
     if r.is_ok() {
@@ -552,14 +610,14 @@ fn thrift_vlq_roundtrip() {
     assert!(len == if v == 0 { 1 } else { (bitlen + 6) / 7 });
     assert!(buf[len - 1] < 0x80 && (len == 1 || buf[len - 1] != 0));
     let mut p = ThriftSliceInputProtocol::new(&buf[..len]);
-    let got = p.read_vlq();
-    assert!(matches!(got, Ok(x) if x == v));
+    let got = take(p.read_vlq());
+    assert!(got.v == Some(v));
     assert!(p.as_slice().is_empty());
     kani::cover!(len == 1);
     kani::cover!(len == 10);
 }
 
-// @unit name=thrift_zigzag_roundtrip props=C05,C08 kind=complete fns=ThriftCompactOutputProtocol::write_zig_zag,ThriftCompactOutputProtocol::write_i64,ThriftCompactOutputProtocol::write_i32,ThriftCompactOutputProtocol::write_i16,ThriftCompactInputProtocol::read_zig_zag,ThriftCompactInputProtocol::read_i64,ThriftCompactInputProtocol::read_i32,ThriftCompactInputProtocol::read_i16 timeout=480 mem=3
+// @unit name=thrift_zigzag_roundtrip props=C05,C08 kind=complete fns=ThriftCompactOutputProtocol::write_zig_zag,ThriftCompactOutputProtocol::write_i64,ThriftCompactOutputProtocol::write_i32,ThriftCompactOutputProtocol::write_i16,ThriftCompactInputProtocol::read_zig_zag,ThriftCompactInputProtocol::read_i64,ThriftCompactInputProtocol::read_i32,ThriftCompactInputProtocol::read_i16 timeout=900 mem=3 tier=thorough
 #[kani::proof]
 #[kani::unwind(12)]
 #[kani::stub(alloc::fmt::format, stub_format)]
@@ -584,10 +642,10 @@ fn thrift_zigzag_roundtrip() {
     }
     let mut p = ThriftSliceInputProtocol::new(&buf[..len]);
     match which {
-        0 => assert!(matches!(p.read_zig_zag(), Ok(y) if y == x)),
-        1 => assert!(matches!(p.read_i64(), Ok(y) if y == x)),
-        2 => assert!(matches!(p.read_i32(), Ok(y) if y == x as i32)),
-        _ => assert!(matches!(p.read_i16(), Ok(y) if y == x as i16)),
+        0 => assert!(take(p.read_zig_zag()).v == Some(x)),
+        1 => assert!(take(p.read_i64()).v == Some(x)),
+        2 => assert!(take(p.read_i32()).v == Some(x as i32)),
+        _ => assert!(take(p.read_i16()).v == Some(x as i16)),
     }
     assert!(p.as_slice().is_empty());
     kani::cover!(which == 0 && x == i64::MIN && len == 10);
@@ -603,7 +661,8 @@ fn thrift_zigzag_roundtrip() {
 // write_field_begin(t, id, last) (t != Stop) -> read_field_begin(last) = (t, id), for every pair of non-negative ids
 // (short delta form and full-id form); write_struct_end -> Stop; everything consumed.
 // Stub: alloc::fmt::format.
-// @unit name=thrift_scalar_roundtrip props=C05,C08 kind=bounded bound=binary_payload<=4_bytes fns=ThriftCompactOutputProtocol::write_double,ThriftCompactOutputProtocol::write_bool,ThriftCompactOutputProtocol::write_i8,ThriftCompactOutputProtocol::write_bytes,ThriftCompactOutputProtocol::write_list_begin,ThriftCompactOutputProtocol::write_field_begin,ThriftCompactOutputProtocol::write_struct_end,ThriftCompactInputProtocol::read_list_begin,ThriftCompactInputProtocol::read_field_begin timeout=480 mem=3
+// NOT CONFIRMED: did not finish within 900 s under a machine load of 50-80 (see REPORT: skip_empty_struct / read_string / skip recursion are the likely cost drivers)
+// @unit name=thrift_scalar_roundtrip props=C05,C08 kind=bounded bound=binary_payload<=4_bytes fns=ThriftCompactOutputProtocol::write_double,ThriftCompactOutputProtocol::write_bool,ThriftCompactOutputProtocol::write_i8,ThriftCompactOutputProtocol::write_bytes,ThriftCompactOutputProtocol::write_list_begin,ThriftCompactOutputProtocol::write_field_begin,ThriftCompactOutputProtocol::write_struct_end,ThriftCompactInputProtocol::read_list_begin,ThriftCompactInputProtocol::read_field_begin timeout=900 mem=3 tier=thorough
 #[kani::proof]
 #[kani::unwind(12)]
 #[kani::stub(alloc::fmt::format, stub_format)]
@@ -620,7 +679,7 @@ fn thrift_scalar_roundtrip() {
             let len = 16 - w.writer.len();
             assert!(len == 8);
             let mut p = ThriftSliceInputProtocol::new(&buf[..len]);
-            assert!(matches!(p.read_double(), Ok(d) if d.to_bits() == bits));
+            assert!(matches!(take(p.read_double()).v, Some(d) if d.to_bits() == bits));
             assert!(p.as_slice().is_empty());
             kani::cover!(f64::from_bits(bits).is_nan());
         }
@@ -632,7 +691,7 @@ fn thrift_scalar_roundtrip() {
             let len = 16 - w.writer.len();
             assert!(len == 1);
             let mut p = ThriftSliceInputProtocol::new(&buf[..len]);
-            assert!(matches!(p.read_bool(), Ok(x) if x == b));
+            assert!(take(p.read_bool()).v == Some(b));
             kani::cover!(b);
             kani::cover!(!b);
         }
@@ -644,7 +703,7 @@ fn thrift_scalar_roundtrip() {
             let len = 16 - w.writer.len();
             assert!(len == 1);
             let mut p = ThriftSliceInputProtocol::new(&buf[..len]);
-            assert!(matches!(p.read_i8(), Ok(x) if x == b));
+            assert!(take(p.read_i8()).v == Some(b));
             kani::cover!(b < 0);
         }
         3 => {
@@ -657,14 +716,14 @@ fn thrift_scalar_roundtrip() {
             let len = 16 - w.writer.len();
             assert!(len == 1 + k);
             let mut p = ThriftSliceInputProtocol::new(&buf[..len]);
-            match p.read_bytes() {
-                Ok(t) => {
+            match take(p.read_bytes()).v {
+                Some(t) => {
                     assert!(t.len() == k);
                     let i: usize = kani::any();
                     kani::assume(i < k);
                     assert!(t[i] == s[i]);
                 }
-                Err(_) => assert!(false),
+                None => assert!(false),
             }
             assert!(p.as_slice().is_empty());
             kani::cover!(k == 0);
@@ -682,9 +741,9 @@ fn thrift_scalar_roundtrip() {
             let len = 16 - w.writer.len();
             assert!((len == 1) == (n < 15) && len <= 6);
             let mut p = ThriftSliceInputProtocol::new(&buf[..len]);
-            match p.read_list_begin() {
-                Ok(l) => assert!(l.element_type == t && l.size as usize == n),
-                Err(_) => assert!(false),
+            match take(p.read_list_begin()).v {
+                Some(l) => assert!(l.element_type == t && l.size as usize == n),
+                None => assert!(false),
             }
             assert!(p.as_slice().is_empty());
             kani::cover!(n == 0);
@@ -713,13 +772,13 @@ fn thrift_scalar_roundtrip() {
             // the short one-byte form is used whenever the delta is 1..=15 (wrapping deltas fall back to the full form)
             assert!(!(len == 2) || short);
             let mut p = ThriftSliceInputProtocol::new(&buf[..len]);
-            match p.read_field_begin(last) {
-                Ok(f) => assert!(f.field_type == t && f.id == id),
-                Err(_) => assert!(false),
+            match take(p.read_field_begin(last)).v {
+                Some(f) => assert!(f.field_type == t && f.id == id),
+                None => assert!(false),
             }
-            match p.read_field_begin(id) {
-                Ok(f) => assert!(f.field_type == FieldType::Stop),
-                Err(_) => assert!(false),
+            match take(p.read_field_begin(id)).v {
+                Some(f) => assert!(f.field_type == FieldType::Stop),
+                None => assert!(false),
             }
             assert!(p.as_slice().is_empty());
             kani::cover!(len == 2);
